@@ -102,6 +102,9 @@ pub struct ScriptState {
     pub consumed: u64,
     /// when the queue is empty: None = protocol mismatch, Some(w) = keep returning w
     pub fallback: Option<u64>,
+    /// pattern mode (cuckoo): every next_u32 answers `s2` and restarts the victim pattern, every
+    /// next_u64 answers gen_range(0..n) == pat[counter % len]
+    pub pattern: Option<(bool, Vec<u64>, u64, usize)>,
 }
 thread_local! { pub static SCRIPT: RefCell<ScriptState> = RefCell::new(ScriptState::default()); }
 #[derive(Clone, Debug, Default)]
@@ -114,6 +117,10 @@ impl RngCore for ScriptRng {
         SCRIPT.with(|s| {
             let mut s = s.borrow_mut();
             s.consumed += 1;
+            if let Some(p) = s.pattern.as_mut() {
+                p.3 = 0;
+                return if p.0 { 0x8000_0000 } else { 0 };
+            }
             match s.q.pop_front() {
                 Some(Intent::Bool(b)) => {
                     if b {
@@ -141,6 +148,11 @@ impl RngCore for ScriptRng {
         SCRIPT.with(|s| {
             let mut s = s.borrow_mut();
             s.consumed += 1;
+            if let Some(p) = s.pattern.as_mut() {
+                let j = p.1[p.3 % p.1.len()];
+                p.3 += 1;
+                return below_word(j % p.2, p.2);
+            }
             match s.q.pop_front() {
                 Some(Intent::Below(j, n)) => below_word(j, n),
                 Some(Intent::Unit52(m)) => m << 12,
@@ -174,7 +186,12 @@ pub fn script_load(v: &[Intent]) {
         s.mismatch = None;
         s.consumed = 0;
         s.fallback = None;
+        s.pattern = None;
     });
+}
+pub fn script_pattern(s2: bool, pat: Vec<u64>, n: u64) {
+    script_load(&[]);
+    SCRIPT.with(|s| s.borrow_mut().pattern = Some((s2, if pat.is_empty() { vec![0] } else { pat }, n, 0)));
 }
 pub fn script_fallback(w: Option<u64>) {
     SCRIPT.with(|s| s.borrow_mut().fallback = w);
@@ -346,6 +363,7 @@ pub fn now_ms() -> u64 {
     std::time::SystemTime::now().duration_since(std::time::UNIX_EPOCH).unwrap().as_millis() as u64
 }
 thread_local! { pub static LAST_PANIC: RefCell<String> = RefCell::new(String::new()); }
+thread_local! { pub static IN_GUARD: RefCell<bool> = RefCell::new(false); }
 pub fn install_panic_hook() {
     std::panic::set_hook(Box::new(|info| {
         let msg = if let Some(s) = info.payload().downcast_ref::<&str>() {
@@ -356,13 +374,18 @@ pub fn install_panic_hook() {
             "panic".to_string()
         };
         let loc = info.location().map(|l| format!("{}:{}", l.file(), l.line())).unwrap_or_default();
+        if !IN_GUARD.with(|g| *g.borrow()) {
+            eprintln!("TOOL-ERROR: harness panicked outside a guarded call: {} @ {}", msg, loc);
+        }
         LAST_PANIC.with(|p| *p.borrow_mut() = format!("{} @ {}", msg, loc));
     }));
 }
 /// Run `f`; Err(message) if it panicked.
 pub fn guarded<T>(f: impl FnOnce() -> T) -> Result<T, String> {
     CALL_STARTED_MS.store(now_ms(), Ordering::SeqCst);
+    IN_GUARD.with(|g| *g.borrow_mut() = true);
     let r = catch_unwind(AssertUnwindSafe(f));
+    IN_GUARD.with(|g| *g.borrow_mut() = false);
     CALL_STARTED_MS.store(0, Ordering::SeqCst);
     r.map_err(|_| LAST_PANIC.with(|p| p.borrow().clone()))
 }
@@ -402,6 +425,14 @@ pub trait Sut: Clone {
     fn apply(&mut self, op: &Value, other: Option<&Self>) -> Value;
     /// M-level dump in the format of the M-spec's emitted states (through the hooks)
     fn mstate(&self) -> Value;
+    /// the binary operation applied to pairs of materialised states (may carry a random script)
+    fn pair_op(&self, name: &str, _rng: &mut Prng) -> Value {
+        json!({"name": name})
+    }
+    /// identity of the key universe / configuration the object lives in (header switches)
+    fn uid(&self) -> usize {
+        0
+    }
     /// did the call fail / reset (object worth re-exploring as a second representative)?
     fn is_alt_worthy(rec: &Value) -> bool {
         matches!(rec["res"].as_str(), Some("full") | Some("cleared"))
@@ -435,6 +466,16 @@ struct Node<S> {
     hid: u64,
     kind: String,
 }
+fn put_rec<S: Sut>(out: &mut Out, last_uid: &mut usize, sut: &S, rec: Value) {
+    if sut.uid() != *last_uid {
+        let mut h = sut.header();
+        h["k"] = json!("hdr");
+        h["s"] = json!(S::TAG);
+        out.put(&h);
+        *last_uid = sut.uid();
+    }
+    out.put(&rec);
+}
 
 /// E2: execute every emitted transition once on the real code.
 ///
@@ -463,6 +504,7 @@ pub fn graph_replay<S: Sut>(gen_path: &str, out: &mut Out, hist: &mut Out, mout:
     let mut header_written = false;
     let mut tid = 0u64;
     let mut cfg0 = Value::Null;
+    let mut last_uid = usize::MAX;
 
     let mut work: VecDeque<Value> = VecDeque::new();
     let mut lines = read_json_lines(gen_path);
@@ -484,6 +526,7 @@ pub fn graph_replay<S: Sut>(gen_path: &str, out: &mut Out, hist: &mut Out, mout:
                         h["k"] = json!("hdr");
                         h["s"] = json!(S::TAG);
                         out.put(&h);
+                        last_uid = sut.uid();
                         header_written = true;
                         cfg0 = t["cfg"].clone();
                     }
@@ -559,7 +602,7 @@ pub fn graph_replay<S: Sut>(gen_path: &str, out: &mut Out, hist: &mut Out, mout:
                         }
                     }
                     merge_into(&mut full, rec);
-                    out.put(&Value::Object(full));
+                    put_rec(out, &mut last_uid, &sut, Value::Object(full));
                     if panicked {
                         continue;
                     }
@@ -622,7 +665,7 @@ pub fn graph_replay<S: Sut>(gen_path: &str, out: &mut Out, hist: &mut Out, mout:
                         }
                     }
                     merge_into(&mut full, rec);
-                    out.put(&Value::Object(full));
+                    put_rec(out, &mut last_uid, &sut, Value::Object(full));
                 }
             }
         }
@@ -631,18 +674,38 @@ pub fn graph_replay<S: Sut>(gen_path: &str, out: &mut Out, hist: &mut Out, mout:
     if let (Some(pair_op), Some(mout)) = (&opts.pair_op, mout) {
         let mut keys: Vec<&String> = nodes.keys().collect();
         keys.sort();
-        let n = keys.len() as u64;
-        let total = n * n;
+        // operands must share configuration and hasher: group by universe
+        let mut groups: HashMap<usize, Vec<&String>> = HashMap::new();
+        for k in &keys {
+            groups.entry(nodes[*k].sut.uid()).or_default().push(*k);
+        }
+        let mut gids: Vec<usize> = groups.keys().cloned().collect();
+        gids.sort_by_key(|g| groups[g][0].clone());
+        let total: u64 = gids.iter().map(|g| (groups[g].len() as u64).pow(2)).sum();
         let mut rng = Prng::new(opts.seed);
         let exhaustive = total <= opts.pair_budget;
         mout.put(&json!({"k":"hdr","s":S::TAG,"cfg":cfg0,"op":pair_op}));
-        let count = if exhaustive { total } else { opts.pair_budget };
-        for c in 0..count {
-            let (ia, ib) = if exhaustive { (c / n, c % n) } else { (rng.below(n), rng.below(n)) };
-            let na = &nodes[keys[ia as usize]];
-            let nb = &nodes[keys[ib as usize]];
+        let mut plan: Vec<(usize, u64, u64)> = vec![];
+        if exhaustive {
+            for (gi, g) in gids.iter().enumerate() {
+                let n = groups[g].len() as u64;
+                for c in 0..n * n {
+                    plan.push((gi, c / n, c % n));
+                }
+            }
+        } else {
+            for _ in 0..opts.pair_budget {
+                let gi = rng.below(gids.len() as u64) as usize;
+                let n = groups[&gids[gi]].len() as u64;
+                plan.push((gi, rng.below(n), rng.below(n)));
+            }
+        }
+        for (gi, ia, ib) in plan {
+            let grp = &groups[&gids[gi]];
+            let na = &nodes[grp[ia as usize]];
+            let nb = &nodes[grp[ib as usize]];
             let mut sut = na.sut.clone();
-            let op = json!({"name": pair_op});
+            let op = sut.pair_op(pair_op, &mut rng);
             tid += 1;
             CALL_TID.store(tid, Ordering::SeqCst);
             note_call(json!({"hid": na.hid, "op": op, "other": nb.hid}));
@@ -655,12 +718,12 @@ pub fn graph_replay<S: Sut>(gen_path: &str, out: &mut Out, hist: &mut Out, mout:
             full.insert("tid".into(), json!(tid));
             full.insert("hid".into(), json!(na.hid));
             full.insert("other".into(), json!(nb.hid));
-            full.insert("op".into(), op);
+            full.insert("op".into(), op.clone());
             let mres = if rec["mres"].is_null() { rec["res"].clone() } else { rec["mres"].clone() };
             let post = if rec["res"] == "panic" { Value::Null } else { sut.mstate() };
-            mout.put(&json!({"k":"m","tid":tid,"op":{"name":pair_op},"pre":na.sut.mstate(),"b":b_before,"post":post,"res":mres}));
+            mout.put(&json!({"k":"m","tid":tid,"op":op,"pre":na.sut.mstate(),"b":b_before,"post":post,"res":mres}));
             merge_into(&mut full, rec);
-            out.put(&Value::Object(full));
+            put_rec(out, &mut last_uid, &sut, Value::Object(full));
         }
     }
     out.flush();
